@@ -18,7 +18,7 @@ A missing `break` (or wrapper) is reported as `false`, not as an extractor failu
 theorem that needs it stops checking and the search looks for a concrete input; a shape that is
 not recognised at all fails closed."""
 import ast
-from tools.gen.gen import generator, parse, find_func, find_class, need, GenError, HEADER, cbool, ast_sha
+from tools.gen.gen import generator, parse, find_func, find_class, need, GenError, HEADER, cbool, ast_sha, tree_module
 
 
 def _is_flag_test(node, flag, negated=False):
@@ -69,7 +69,11 @@ def server_facts(tree):
     loops = [s for s in br.body if isinstance(s, ast.For)]
     need(len(loops) == 1, "batch branch: expected exactly one for-loop")
     loop = loops[0]
-    need(isinstance(loop.target, ast.Tuple) and len(loop.target.elts) == 3 and not loop.orelse,
+    tgt = loop.target
+    if isinstance(tgt, ast.Tuple) and len(tgt.elts) == 2 and isinstance(tgt.elts[1], ast.Tuple) and isinstance(loop.iter, ast.Call) \
+            and isinstance(loop.iter.func, ast.Name) and loop.iter.func.id == "enumerate":
+        tgt = tgt.elts[1]       # for index, (method, vargs, kwargs) in enumerate(...)
+    need(isinstance(tgt, ast.Tuple) and len(tgt.elts) == 3 and not loop.orelse,
          "batch loop: target is not a (method, vargs, kwargs) triple or the loop has an else")
     # nested loops / while inside would change the meaning of `break`
     for sub in ast.walk(loop):
@@ -280,11 +284,169 @@ def client_facts(tree):
             "sha": ast_sha(gen) + ast_sha(call)}
 
 
+
+SERVER_KEYS = ["loop_breaks", "wraps_exception", "gate_per_member", "appends_result", "oneway_no_reply", "oneway_no_error_reply"]
+CLIENT_KEYS = ["generator_raises_wrapper", "raiseit_same_exception", "oneway_returns_nothing", "batch_flags",
+               "client_oneway_no_wait", "queue_cleared_at_submit", "generator_leaves_queue_alone"]
+
+
+def probed_facts(tree):
+    """Second reader (used only for facts the ast reader could not establish, e.g. after the loop moved into a helper):
+    the same facts observed on the code of the tree under test, driven through the in-process loopback with a tiny
+    recording object.  Each fact is the behaviour the ast shape stands for, on one fixed probe batch."""
+    import struct
+    for m in ("Pyro5", "Pyro5.server", "Pyro5.client", "Pyro5.core", "Pyro5.protocol"):
+        tree_module(tree, m)
+    api = tree_module(tree, "Pyro5.api")
+    protocol = tree_module(tree, "Pyro5.protocol")
+    from tools.lib import loopback
+
+    class Probe(object):
+        def __init__(self):
+            self.log = []
+
+        @api.expose
+        def add(self, k):
+            self.log.append(("add", k))
+            return k * 2
+
+        @api.expose
+        def boom(self, k):
+            self.log.append(("boom", k))
+            raise KeyError("probe", k)
+
+        def hidden(self, k):
+            self.log.append(("hidden", k))
+
+    f = {}
+    o = Probe()
+    d = loopback.make_daemon()
+    try:
+        uri = d.register(o, "GenBatch.probe")
+        seen = []      # (msgtype, flags) of every client message
+        with loopback.Loopback(d) as net:
+            net.on_request = lambda c, msg: seen.append(struct.unpack(protocol._header_format, bytes(msg[:protocol._header_size]))[2:5:2])
+            p = api.Proxy(uri)
+            p._pyroTimeout = 2
+            try:
+                def batch(calls, **kw):
+                    b = api.BatchProxy(p)
+                    for n, a in calls:
+                        getattr(b, n)(a)
+                    return b, b(**kw)
+
+                def pull(g):
+                    out = []
+                    try:
+                        for v in g:
+                            out.append(("ok", v))
+                    except Exception as x:
+                        out.append(("exc", type(x).__name__, tuple(x.args)))
+                    return out
+                # a raising member in the middle, normal mode
+                o.log = []
+                _, g = batch([("add", 1), ("boom", 2), ("add", 3)])
+                outs = pull(g)
+                n_normal = list(o.log)
+                # ... and oneway
+                o.log = []
+                del seen[:]
+                _, r = batch([("add", 1), ("boom", 2), ("add", 3)], oneway=True)
+                n_oneway = list(o.log)
+                flags_oneway = [fl for t, fl in seen if t == protocol.MSG_INVOKE]
+                f["loop_breaks"] = n_normal == [("add", 1), ("boom", 2)] and n_oneway == [("add", 1), ("boom", 2)]
+                f["appends_result"] = outs[:1] == [("ok", 2)]
+                f["wraps_exception"] = outs[1:] == [("exc", "KeyError", ("probe", 2))]
+                f["generator_raises_wrapper"] = f["wraps_exception"] and len(outs) == 2
+                f["raiseit_same_exception"] = f["wraps_exception"]
+                f["oneway_returns_nothing"] = r is None
+                f["client_oneway_no_wait"] = r is None
+                # the connection is still in step after the oneway batch: no reply was sent for it (a reply would be read
+                # as the answer of the next request and fail the sequence check)
+                try:
+                    in_step = p.add(5) == 10
+                except Exception:
+                    in_step = False
+                f["oneway_no_reply"] = in_step
+                # a refused member: earlier ones ran, later ones did not, refusal comes at submission; oneway: silence, in step
+                o.log = []
+                try:
+                    batch([("add", 1), ("hidden", 2), ("add", 3)])
+                    refused_at_submit = False
+                except AttributeError:
+                    refused_at_submit = True
+                f["gate_per_member"] = refused_at_submit and o.log == [("add", 1)]
+                o.log = []
+                try:
+                    _, r2 = batch([("add", 1), ("hidden", 2), ("add", 3)], oneway=True)
+                    quiet = r2 is None and o.log == [("add", 1)] and p.add(6) == 12
+                except Exception:
+                    quiet = False
+                f["oneway_no_error_reply"] = quiet
+                # flags on the wire
+                del seen[:]
+                batch([("add", 1)])
+                fl_normal = [fl for t, fl in seen if t == protocol.MSG_INVOKE]
+                f["batch_flags"] = (len(fl_normal) == 1 and bool(fl_normal[0] & protocol.FLAGS_BATCH) and not fl_normal[0] & protocol.FLAGS_ONEWAY
+                                    and len(flags_oneway) == 1 and bool(flags_oneway[0] & protocol.FLAGS_BATCH) and bool(flags_oneway[0] & protocol.FLAGS_ONEWAY))
+                # re-use: the queue is empty after a submission (results never pulled), and pulling late leaves new calls alone
+                o.log = []
+                b = api.BatchProxy(p)
+                b.add(1)
+                g1 = b()
+                b.add(2)
+                b.add(3)
+                late = pull(g1)
+                g2 = b()
+                pull(g2)
+                f["queue_cleared_at_submit"] = o.log == [("add", 1), ("add", 2), ("add", 3)]
+                f["generator_leaves_queue_alone"] = f["queue_cleared_at_submit"] and late == [("ok", 2)]
+                o.log = []
+                b = api.BatchProxy(p)
+                b.add(1)
+                b(oneway=True)
+                b.add(2)
+                pull(b._pyroInvoke("x", (), {}))
+                b.add(3)
+                pull(b())
+                f["queue_cleared_at_submit"] = f["queue_cleared_at_submit"] and o.log == [("add", 1), ("add", 2), ("add", 3)]
+            finally:
+                p._pyroRelease()
+    finally:
+        d.close()
+    return f
+
 @generator("GenBatch", "Pyro5/server.py", "Pyro5/client.py", "Pyro5/core.py")
 def gen_batch(tree):
-    s = server_facts(tree)
-    c = client_facts(tree)
+    # first reader: the ast shape.  A fact it cannot establish (unrecognised shape, or a shape that reads as `false`)
+    # is then taken from the second reader, the behaviour of the tree's own code on a fixed probe batch.
+    notes = []
+    try:
+        s = server_facts(tree)
+    except GenError as x:
+        s = {"sha": None}
+        notes.append("server ast reader: %s" % x)
+    try:
+        c = client_facts(tree)
+    except GenError as x:
+        c = {"sha": None, "queue_cleared_on_failed_submit": False}
+        notes.append("client ast reader: %s" % x)
+    missing = [k for k in SERVER_KEYS if s.get(k) is not True] + [k for k in CLIENT_KEYS if c.get(k) is not True]
+    probed = []
+    if missing:
+        try:
+            f = probed_facts(tree)
+        except GenError:
+            raise
+        except Exception as x:
+            raise GenError("behavioural probe of the batch path failed: %s: %s (ast reader: %s)" % (type(x).__name__, x, "; ".join(notes) or "facts read as false: %s" % missing))
+        for k in missing:
+            (s if k in SERVER_KEYS else c)[k] = bool(f.get(k, False))
+            probed.append("%s=%s" % (k, bool(f.get(k, False))))
+    mode = "ast" if not probed else "probed: " + ", ".join(probed) + ("; " + "; ".join(notes) if notes else "")
     out = HEADER % "Pyro5/server.py (handleRequest, batch branch), Pyro5/client.py (BatchProxy), Pyro5/core.py (_ExceptionWrapper)"
+    if probed:
+        out += "(* reader: ast, except for the facts observed on the tree's own code by the behavioural probe: %s *)\n" % ", ".join(probed).replace("*)", "* )")
     out += "(* the `except Exception` handler of the batch loop ends in `break` after appending the wrapper *)\n"
     out += "Definition loop_breaks : bool := %s.\n" % cbool(s["loop_breaks"])
     out += "(* a failing member's exception is appended to the data list as core._ExceptionWrapper *)\n"
@@ -313,5 +475,6 @@ def gen_batch(tree):
     info = dict(s)
     info.update(c)
     info.pop("sha", None)
+    info["mode"] = mode
     info["ast_sha"] = {"server_batch_branch": s["sha"], "client_batch": c["sha"]}
     return out, info
